@@ -282,3 +282,6 @@ pub fn resolve_once(
 
     Ok(resolution_state)
 }
+
+#[cfg(hlorenzi_customasm_verif)]
+pub use instruction::check_and_constrain_argument as verif_check_and_constrain_argument;
